@@ -101,7 +101,7 @@ def unguarded_subs(b):
       'every checked subtraction in corrupt.rs (edit_word, its closures and the context-table providers) has a minuend '
       'that is provably >= the subtrahend on every path (idx > 0, idx > other_idx, len > 1, ...)')
 def r1(ctx):
-    bodies = [b for b in ctx.facts.bodies if b.file() == 'src/corrupt.rs' and not b.span['exp']]
+    bodies = [b for b in ctx.facts.bodies if b.file() == 'src/corrupt.rs' and not b.span['exp'] and b.path not in ctx.facts.inlined_paths]
     total = 0
     for b in bodies:
         ctx.stats['bodies_inspected'].add(b.path)
